@@ -1,5 +1,5 @@
 #!/bin/bash
-# usage: findings/replay.sh F1|F2|F3|F4 <git-rev of /repo | path to a repo copy>
+# usage: findings/replay.sh F1|F2|F3|F4|F5 <git-rev of /repo | path to a repo copy>
 # Builds a scratch copy (removed afterwards), adds the replay test module under cfg(test) (so WAL files
 # are 4 blocks), runs it.  Exit 0 = the replay test PASSES (defect absent), 1 = it FAILS (defect present).
 set -u
